@@ -276,7 +276,7 @@ Definition fit_poly_raw (data : list dpt) (xr : xrange_arg) (deg : nat) : fres (
   | FRaise e => FRaise e
   | FOk sel =>
       match sel with
-      | [] => FRaise EOther          (* empty selection: IndexError inside the library *)
+      | [] => FRaise EType           (* empty selection: polyfit raises TypeError (expected non-empty vector) *)
       | _ => polyfit (lsq_points sel) deg
       end
   end.
@@ -290,9 +290,12 @@ Variable optimise : option (list Q) -> P.            (* sigma (None = unweighted
 Variable slope : P -> Q -> Q.                        (* slope of the first-pass curve at a point *)
 
 (** squares of the sigma handed to the second pass (Q has no square root) *)
+(** the points handed to numerical_derivative: the x values (or, were the source to say so, another array) *)
+Definition slope_point (t : dpt) : Q := if slope_at_values then dx t else dxe t.
+
 Definition sigma2_second_pass (r1 : P) (sel : list dpt) (ye : option (list Q)) : list Q :=
   let ys := match ye with Some l => l | None => repeat 0 (length sel) end in
-  map (fun '(t, sy) => FitGlueQ.eff_variance sy (dxe t) (slope r1 (dx t))) (combine sel ys).
+  map (fun '(t, sy) => FitGlueQ.eff_variance sy (dxe t) (slope r1 (slope_point t))) (combine sel ys).
 
 (** number of optimiser calls and the squared sigma of the last one (None = sigma is yerr / None) *)
 Definition curve_fit_sigmas (sel : list dpt) : option (list Q) * option (list Q) :=
